@@ -261,8 +261,11 @@ def make_history(kind: str, n_ops: int, rng: random.Random) -> List[dict]:
         for text in HOT[victim]:
             parse_op(victim, text)
             ops.append({"op": "edit?", "recent": 1})
-        for i in range(1040):  # more distinct strings than the cache holds
-            fresh_op(victim)
+        for i in range(1040):  # more distinct strings than the cache holds (short ones: parsing is the cost here)
+            counter[victim] += 1
+            big = 10000 + counter[victim]
+            parse_op(victim, fresh(victim, counter[victim]) if i % 8 == 0 else
+                     (f"[{big}]" if victim == "cond" else f"X [{big}]"))
             if i % 9 == 0:
                 ops.append({"op": "edit?", "recent": 3})
         for text in HOT[victim]:  # evicted meanwhile: miss, re-parse
@@ -458,7 +461,7 @@ def run(ctx, tier: str, seed: int) -> None:
     rng = random.Random(seed)
     t0 = time.time()
     n_ops = 2000 if thorough else 400
-    jobs: List[Tuple[str, int, int]] = [("random", n_ops, rng.randrange(2 ** 30)) for _ in range(64 if thorough else 14)]
+    jobs: List[Tuple[str, int, int]] = [("random", n_ops, rng.randrange(2 ** 30)) for _ in range(48 if thorough else 14)]
     jobs += [(f"evict-{p}", 0, rng.randrange(2 ** 30)) for p in ("cond", "ahb")] * (8 if thorough else 1)
     results = pmap(_history_job, jobs)
     if not all(r["cleared"] for r in results):
